@@ -265,4 +265,39 @@ Proof.
     eexists; (split; [reflexivity|]); cbn; repeat split; reflexivity.
 Qed.
 
+(* ---- a whole chunked request from the initial state, an addon installing a stream callable in requestheaders:
+   whatever the size options are, the server is sent exactly the callable's output, and the flow keeps it iff
+   store_streamed_bodies *)
+Theorem stream_request_end_to_end q0 s0 e100 (ds : list bytes) :
+  p_req cfg = Some SCall -> c_ok cfg = true ->
+  let pieces := transformed fq q0 ds in
+  exists s' out,
+    run (init S q0 s0) (ReqHeaders FChunked e100 :: map ReqData ds ++ [ReqEom]) = (s', out, false)
+    /\ data_to Server out = pieces
+    /\ server_content out = CSend Server (MHeaders false)
+                             :: map (fun c => CSend Server (MData c)) pieces ++ [CSend Server MEom]
+    /\ client_state s' = Done
+    /\ req_content s' = (if o_store cfg then Some (concat pieces) else None)
+    /\ request_body_buf s' = [].
+Proof.
+  intros PQ OK pieces. subst pieces.
+  assert (HE : handle_event (init S q0 s0) (ReqHeaders FChunked e100)
+               = Some (mkSt Streaming WaitHeaders [] [] FChunked None SCall SFalse q0 s0 None None false true,
+                       CHook HRequestHeaders :: (if e100 then [CSend Client MContinue] else [])
+                       ++ [CGetConn; CSend Server (MHeaders false)])).
+  { unfold HttpBody.handle_event, state_wait_for_request_headers, HttpBody.check_body_size, hook_requestheaders,
+      start_request_stream, make_server_connection, init.
+    rewrite PQ, OK. cbn [is_request_event client_state end_stream_of expected_size].
+    destruct (negb (opt_truthy (o_stream cfg) || opt_truthy (o_limit cfg))); reflexivity. }
+  cbn [HttpBody.run]. rewrite HE.
+  destruct (stream_request_relay ds WaitHeaders [] [] FChunked None SCall SFalse q0 s0 None None false true)
+    as (s' & out & R & D & SC & C & RC & RB).
+  cbn [expected_pieces] in *. rewrite R.
+  eexists; eexists. split; [reflexivity|].
+  split; [destruct e100; cbn [app data_to]; exact D|].
+  split; [destruct e100; unfold server_content in *; cbn [app filter is_server_content]; rewrite SC; reflexivity|].
+  split; [exact C|]. split; [rewrite RC; reflexivity|].
+  rewrite RB; destruct (o_store cfg); reflexivity.
+Qed.
+
 End Relay.
